@@ -19,7 +19,7 @@ RULE = (
     "screen); distinct = hash of both; non-trivial = the screen holds a control in some column and >=2 rows"
 )
 ASSUMPTIONS = ["the interaction sample type links through exp and the Bliss baseline: its viability is checked against its own documented formula and its mean must be 0 whenever a control is present"]
-REQUIRED = {"whole_library_predictions": {"quick": 2, "thorough": 6}, "integer_typed_precisions": {"quick": 80, "thorough": 2000}, "partial_holder_helper_calls": {"quick": 200, "thorough": 3000}, "theta_screen_pairs": {"quick": 1500, "thorough": 40000}, "purity_checks": {"quick": 6000, "thorough": 150000}, "control_neutrality_rows": {"quick": 3000, "thorough": 80000}, "helper_checks": {"quick": 200, "thorough": 5000}, "large_screens": {"quick": 8, "thorough": 60}}
+REQUIRED = {"predictions_after_the_single_effects_were_updated_in_place": {"quick": 100, "thorough": 2500}, "whole_library_predictions": {"quick": 2, "thorough": 6}, "integer_typed_precisions": {"quick": 80, "thorough": 2000}, "partial_holder_helper_calls": {"quick": 200, "thorough": 3000}, "theta_screen_pairs": {"quick": 1500, "thorough": 40000}, "purity_checks": {"quick": 6000, "thorough": 150000}, "control_neutrality_rows": {"quick": 3000, "thorough": 80000}, "helper_checks": {"quick": 200, "thorough": 5000}, "large_screens": {"quick": 8, "thorough": 60}}
 N_PAIRS = {"quick": 4000, "thorough": 64000}
 
 
@@ -168,6 +168,22 @@ def run_shard(rec, tier, seed, shard, nshards):
                     want_v = np.clip(np.exp(mean + np.log(se)), 0.01, 0.99)
                 rec.check(kit.close(via, want_v, rel=1e-13), "C09/viability/not-documented-formula", "interaction viability differs from its documented formula", w)
                 rec.check(bool(np.all((via >= 0.01) & (via <= 0.99))), "C09/viability/out-of-range", "viability outside [0.01,0.99]", w)
+                if n and rng.random() < 0.5:
+                    # the single effects of a sample are re-measured (the model's own table is updated in place when a
+                    # later batch repeats a single-agent well): same dict object, same keys, other values - and another
+                    # sample that shares nothing with this one predicts in between in half of the cases
+                    for key_ in list(th.single_effect_lookup):
+                        if rng.random() < 0.6:
+                            th.single_effect_lookup[key_] = float(rng.uniform(0.05, 0.95))
+                    if rng.random() < 0.5:
+                        gen.random_interaction_theta(rng, nS, nT).predict_viability(screen)
+                    via2 = np.asarray(th.predict_viability(screen), dtype=float)
+                    se2 = np.clip([th.single_effect_lookup[int(c), int(a)] * th.single_effect_lookup[int(c), int(b)] for c, a, b in zip(sids, tids[:, 0], tids[:, 1])], 0.01, 0.99)
+                    with np.errstate(over="ignore"):
+                        want2 = np.clip(np.exp(mean + np.log(se2)), 0.01, 0.99)
+                    rec.count("predictions_after_the_single_effects_were_updated_in_place")
+                    rec.check(kit.close(via2, want2, rel=1e-13), "C09/purity/prediction-remembers-earlier-parameters", lambda: "after the sample's single effects were updated in place the viability is %r, its formula gives %r (before the update: %r)" % (via2[:4].tolist(), want2[:4].tolist(), via[:4].tolist()), w)
+                    via = via2
 
             # ---- subset == whole[rows]
             for _ in range(3):
